@@ -181,6 +181,19 @@ func zzProcAlive() bool {
 			}
 		}
 	}
+	splitLines := func(b []byte) [][]byte {
+		var out [][]byte
+		for len(b) > 0 {
+			i := strings.IndexByte(string(b), '\n')
+			if i < 0 {
+				out = append(out, b)
+				break
+			}
+			out = append(out, b[:i+1])
+			b = b[i+1:]
+		}
+		return out
+	}
 	// The general emulation: replay the effect list on virtual files up to the cut. Used when
 	// the simple shapes below do not apply: writes issued after a rename (a descriptor that
 	// followed the file), more than one rename, or a rename that is not <log>.tmp -> <log>.
@@ -196,6 +209,9 @@ func zzProcAlive() bool {
 		}
 		if e.Kind == "write" && seenRename {
 			general = true
+		}
+		if (e.Kind == "truncate" || e.Kind == "remove") && !strings.HasSuffix(e.Leaf, ".tmp") && e.Leaf != "" {
+			general = true // the live log itself is cut or unlinked
 		}
 	}
 	if nRename > 1 {
@@ -225,12 +241,81 @@ func zzProcAlive() bool {
 			written = append(written, b[:i+1])
 			b = b[i+1:]
 		}
+		// pass 1: the complete run on virtual files holding references to write effects, to learn
+		// which line of the final files each write produced
+		type ref struct{ w, j int } // j-th line of write effect number w (in path order)
+		linesOf := func(e zzEffect) int {
+			if v, ok := s.Meta["effect"+strconv.Itoa(e.I)+".lines"].(float64); ok && int(v) > 1 {
+				return int(v)
+			}
+			return 1
+		}
+		vrefs := map[string][]ref{}
+		prefix := map[string]int{} // lines a file already had before this process
+		for name, c := range zzFS.snapAll {
+			vrefs[name] = nil
+			prefix[name] = strings.Count(c, "\n")
+			if len(c) > 0 && !strings.HasSuffix(c, "\n") {
+				prefix[name]++
+			}
+		}
+		perFileOrdinal := map[int]int{} // write effect -> how many lines were written to its file before it
+		wn := 0
+		for _, e := range mine {
+			switch e.Kind {
+			case "create":
+				if _, ok := vrefs[e.Leaf]; !ok {
+					vrefs[e.Leaf], prefix[e.Leaf] = nil, 0
+				}
+			case "truncate":
+				vrefs[e.Leaf], prefix[e.Leaf] = nil, 0
+			case "rename":
+				if r, ok := vrefs[e.SrcLeaf]; ok {
+					vrefs[e.Leaf], prefix[e.Leaf] = r, prefix[e.SrcLeaf]
+					delete(vrefs, e.SrcLeaf)
+				}
+			case "remove":
+				delete(vrefs, e.Leaf)
+			case "write":
+				perFileOrdinal[wn] = len(vrefs[e.Leaf])
+				for j := 0; j < linesOf(e); j++ {
+					vrefs[e.Leaf] = append(vrefs[e.Leaf], ref{wn, j})
+				}
+				wn++
+			}
+		}
+		content := map[ref][]byte{}
+		for name, refs := range vrefs {
+			b, err := os.ReadFile(filepath.Join(zzW.dir, name))
+			if err != nil {
+				continue
+			}
+			ls := splitLines(b)
+			for k, r := range refs {
+				if prefix[name]+k < len(ls) {
+					content[r] = ls[prefix[name]+k]
+				}
+			}
+		}
+		lineFor := func(r ref) []byte {
+			if c, ok := content[r]; ok {
+				return c
+			}
+			// a write whose file did not survive (a temp file removed later): the command writes
+			// the same events in the same order to whatever file it rewrites
+			k := perFileOrdinal[r.w] + r.j
+			if k < len(written) {
+				return written[k]
+			}
+			return nil
+		}
+		// pass 2: the run up to the cut
 		files := map[string][]byte{}
 		for name, c := range zzFS.snapAll {
 			files[name] = []byte(c)
 		}
 		_ = logLeaf
-		wi := 0
+		wn = 0
 		for _, e := range mine {
 			if e.I > die || (e.I == die && !(e.Kind == "write" && (torn || tornAll))) {
 				break
@@ -250,12 +335,9 @@ func zzProcAlive() bool {
 			case "remove":
 				delete(files, e.Leaf)
 			case "write":
-				n := 1
-				if v, ok := s.Meta["effect"+strconv.Itoa(e.I)+".lines"].(float64); ok && int(v) > 1 {
-					n = len(written) - wi // one write(2) carrying the rest of the command's lines
-				}
-				for j := 0; j < n && wi < len(written); j++ {
-					ln := written[wi]
+				n := linesOf(e)
+				for j := 0; j < n; j++ {
+					ln := lineFor(ref{wn, j})
 					if e.I == die && torn {
 						k, _ := strconv.Atoi(s.Values["world.tornlines!"+strconv.Itoa(e.I)])
 						if n == 1 || j == k {
@@ -263,12 +345,12 @@ func zzProcAlive() bool {
 						} else if j > k {
 							ln = nil
 						}
-					} else if e.I == die && tornAll && j == n-1 {
+					} else if e.I == die && tornAll && j == n-1 && len(ln) > 0 {
 						ln = ln[:len(ln)-1]
 					}
 					files[e.Leaf] = append(files[e.Leaf], ln...)
-					wi++
 				}
+				wn++
 			}
 		}
 		ents, _ := os.ReadDir(zzW.dir)
@@ -294,19 +376,6 @@ func zzProcAlive() bool {
 	}
 	if renamed {
 		return false // the commit point was passed: the completed state stands
-	}
-	splitLines := func(b []byte) [][]byte {
-		var out [][]byte
-		for len(b) > 0 {
-			i := strings.IndexByte(string(b), '\n')
-			if i < 0 {
-				out = append(out, b)
-				break
-			}
-			out = append(out, b[:i+1])
-			b = b[i+1:]
-		}
-		return out
 	}
 	keep := func(lines [][]byte, writes []zzEffect) []byte {
 		var out []byte
@@ -491,3 +560,6 @@ func zzFileExisted(path string) bool {
 // zzReaderInstants: symbolically, the reader's path-based stats may describe an earlier instant of
 // the concurrent writer than its later open; natively the reader simply runs after the cut.
 func zzReaderInstants() {}
+
+// zzLockFileStable cannot be observed natively (structural obligation).
+func zzLockFileStable() bool { return true }
